@@ -183,7 +183,19 @@ uint8_t* Exec::ensure_slot(int si) {
     // carve this buffer out of the reserve next to its host, touching it
     const Slot& h = P.slots[s.neighbor_of];
     uint8_t* hp = ptr[s.neighbor_of];
-    if (hp && owned[s.neighbor_of] == 1 && h.reserve >= nb && (nb % 8) == 0 && (bytes[s.neighbor_of] % 8) == 0) {
+    if (hp && owned[s.neighbor_of] == 1 && s.interleaved && s.type == T_ZV && h.type == T_ZV && h.reserve_side == 0 && s.sl == h.sl && s.n == h.n &&
+        s.n * 8 + nb <= bytes[s.neighbor_of] + h.reserve) {
+      // second column of the host's matrix: same stride, shifted by one polynomial; only its own limbs are pre-filled
+      p = hp + s.n * 8;
+      sim_unpoison(p, nb);
+      for (uint64_t l = 0; l < s.size; ++l) sim_fill(p + l * s.sl * 8, s.n * 8, fill, fseed + l);
+      ptr[si] = p;
+      bytes[si] = nb;
+      owned[si] = 3;
+      n_adjacent++;
+      goto placed;
+    }
+    if (hp && owned[s.neighbor_of] == 1 && !s.interleaved && h.reserve >= nb && (nb % 8) == 0 && (bytes[s.neighbor_of] % 8) == 0) {
       p = h.reserve_side == 0 ? hp + bytes[s.neighbor_of] : hp - nb;
       sim_unpoison(p, nb);
       if (nb) sim_fill(p, nb, fill, fseed);
@@ -431,6 +443,7 @@ void Exec::run_call(int idx) {
     }
   }
 
+  auto shares_block_early = [&](int si) { return owned[si] == 3 || P.slots[si].reserve != 0; };
   // source hashes (second check of C18) and read-only mapping of sources
   uint64_t src_hash[5] = {0, 0, 0, 0, 0};
   bool is_src[5] = {false, false, false, false, false};
@@ -441,14 +454,17 @@ void Exec::run_call(int idx) {
       if (j != k && c.s[j] == c.s[k] && oi.roles[j] != 'i') written = true;
     if (written) continue;
     is_src[k] = true;
-    src_hash[k] = hash_bytes(p[k], bytes[c.s[k]]);
+    // whole block for private blocks; only the operand's own limbs when the block also hosts another buffer
+    src_hash[k] = shares_block_early(c.s[k]) ? hash_declared(P, c, k, p[k], bytes[c.s[k]]) : hash_bytes(p[k], bytes[c.s[k]]);
     if (env.protect_sources && !P.slots[c.s[k]].reserve && owned[c.s[k]] != 3) {
       sim_protect(p[k], 1);
       n_protect++;
     }
   }
+  auto shares_block = [&](int si) { return owned[si] == 3 || P.slots[si].reserve != 0; };
   if (sim_flavour == SIM_ASAN && env.check_frame)
-    for (int k = 0; k < oi.nslots; ++k) poison_outside(P, c, c.s[k], p[k], bytes[c.s[k]], true);
+    for (int k = 0; k < oi.nslots; ++k)
+      if (!shares_block(c.s[k])) poison_outside(P, c, c.s[k], p[k], bytes[c.s[k]], true);
 
   uint64_t life_mark = 0;
   int life_live = 0;
@@ -492,11 +508,12 @@ void Exec::run_call(int idx) {
   n_calls++;
 
   if (sim_flavour == SIM_ASAN && env.check_frame)
-    for (int k = 0; k < oi.nslots; ++k) poison_outside(P, c, c.s[k], p[k], bytes[c.s[k]], false);
+    for (int k = 0; k < oi.nslots; ++k)
+      if (!shares_block(c.s[k])) poison_outside(P, c, c.s[k], p[k], bytes[c.s[k]], false);
   for (int k = 0; k < oi.nslots; ++k)
     if (is_src[k]) {
       if (env.protect_sources && !P.slots[c.s[k]].reserve && owned[c.s[k]] != 3) sim_protect(p[k], 0);
-      if (hash_bytes(p[k], bytes[c.s[k]]) != src_hash[k]) {
+      if ((shares_block_early(c.s[k]) ? hash_declared(P, c, k, p[k], bytes[c.s[k]]) : hash_bytes(p[k], bytes[c.s[k]])) != src_hash[k]) {
         Violation v;
         v.kind = "source-modified";
         v.detail = std::string(oi.name) + ": source operand " + std::to_string(k) + " (" + slot_type_names[P.slots[c.s[k]].type] + ") changed";
@@ -514,6 +531,15 @@ void Exec::run_call(int idx) {
     v.op = c.op;
     v.slot = c.s[0];
     viol.push_back(v);
+  }
+  if (oi.level == 3 && op_selfcheck_errors()) {
+    Violation v;
+    v.kind = "model-mismatch";
+    v.detail = std::string(oi.name) + ": idft(dft(a)) on the surviving module differs from a in " + std::to_string(op_selfcheck_errors()) + " coefficient(s)";
+    v.call = idx;
+    v.op = c.op;
+    viol.push_back(v);
+    op_selfcheck_errors() = 0;
   }
   if (oi.level == 3) {
     n_life++;
